@@ -255,6 +255,7 @@ func runC20(cfg *vh.Config) error {
 
 	runHashHistories(cfg, r.Fork("hash-histories"), res, cf, distinct, &caseNo)
 	runHashConcurrent(cfg, r.Fork("hash-concurrent"), res, distinct, &caseNo)
+	runNew(cfg, res, cf, &caseNo)
 	if err := runEmittedPatterns(cfg, r.Fork("emitted-patterns"), res, cf, distinct, &caseNo); err != nil {
 		return err
 	}
